@@ -30,6 +30,8 @@ pub type Fallible<T> = Result<T, NoSolution>;
 // datatypes, so it is an opaque struct here — the unit never relies on inhabitedness.
 #[verifier::external_body]
 pub struct Void { _p: () }
+impl Copy for Void {}
+impl Clone for Void { #[verifier::external_body] fn clone(&self) -> (r: Self) ensures r == *self { unimplemented!() } }
 
 #[verifier::external_body]
 pub struct InferenceVar { _p: () }
@@ -37,12 +39,14 @@ impl Copy for InferenceVar {}
 impl Clone for InferenceVar { #[verifier::external_body] fn clone(&self) -> (r: Self) ensures r == *self { unimplemented!() } }
 #[verifier::external_body]
 pub struct BoundVar { _p: () }
+impl Copy for BoundVar {}
+impl Clone for BoundVar { #[verifier::external_body] fn clone(&self) -> (r: Self) ensures r == *self { unimplemented!() } }
 
 // real definitions (extracted)
 //@TYPE file=chalk-ir/src/lib.rs kind=enum name=Variance attrs="#[derive(Clone, Copy)]"
 //@TYPE file=chalk-ir/src/lib.rs kind=struct name=UniverseIndex attrs="#[derive(Clone, Copy)]"
 //@TYPE file=chalk-ir/src/lib.rs kind=struct name=PlaceholderIndex attrs="#[derive(Clone, Copy)]"
-//@TYPE file=chalk-ir/src/lib.rs kind=enum name=LifetimeData attrs="#[verifier::reject_recursive_types(I)]"
+//@TYPE file=chalk-ir/src/lib.rs kind=enum name=LifetimeData attrs="#[verifier::reject_recursive_types(I)] #[derive(Clone, Copy)]"
 //@TYPE file=chalk-ir/src/lib.rs kind=struct name=LifetimeOutlives attrs="#[verifier::reject_recursive_types(I)]"
 //@TYPE file=chalk-ir/src/lib.rs kind=struct name=ConstData attrs="#[verifier::reject_recursive_types(I)]"
 //@TYPE file=chalk-ir/src/lib.rs kind=enum name=ConstValue attrs="#[verifier::reject_recursive_types(I)]"
@@ -188,6 +192,8 @@ impl<I: Interner> InferenceTable<I> {
     #[verifier::external_body]
     pub fn normalize_lifetime_shallow(&mut self, interner: I, leaf: &Lifetime<I>) -> (r: Option<Lifetime<I>>)
         ensures final(self).unify.view() == old(self).unify.view(), r == old(self).spec_normalize(*leaf),
+                // probing does not change what any lifetime normalizes to (ena: path compression only)
+                forall|l: Lifetime<I>| #[trigger] final(self).spec_normalize(l) == old(self).spec_normalize(l),
     { unimplemented!() }
 }
 
@@ -242,6 +248,7 @@ impl<'t, I: Interner> Unifier<'t, I> {
 //@FN file=chalk-solve/src/infer/unify.rs within="^impl<'t, I: Interner> Unifier<'t, I>$" fn=relate_alias_ty contract=relate_alias_ty path=Unifier::relate_alias_ty
 //@FN file=chalk-solve/src/infer/unify.rs within="^impl<'t, I: Interner> Unifier<'t, I>$" fn=generalize_lifetime contract=generalize_lifetime path=Unifier::generalize_lifetime
 //@FN file=chalk-solve/src/infer/unify.rs within="^impl<'t, I: Interner> Unifier<'t, I>$" fn=generalize_const contract=generalize_const path=Unifier::generalize_const
+//@FN file=chalk-solve/src/infer/unify.rs within="^impl<'t, I: Interner> Unifier<'t, I>$" fn=relate_lifetime_lifetime refpat=deref contract=relate_lifetime_lifetime path=Unifier::relate_lifetime_lifetime
 }
 
 //@CONTRACT push_goals
@@ -309,6 +316,44 @@ impl<'t, I: Interner> Unifier<'t, I> {
             &&& final(self).goal_seq() == old(self).goal_seq() + required(old(self).env(), variance, var_lifetime(ena_of::<I>(var)), *value)
         },
 //@END
+
+//@CONTRACT relate_lifetime_lifetime
+    requires
+        // callers' obligation (the code panics otherwise): no bound variable / phantom reaches unification
+        !(lifetime_data(old(self).normalized(*a)) is BoundVar), !(lifetime_data(old(self).normalized(*b)) is BoundVar),
+        !(lifetime_data(old(self).normalized(*a)) is Phantom), !(lifetime_data(old(self).normalized(*b)) is Phantom),
+    ensures
+        r is Ok,
+        final(self).env() == old(self).env(),
+        rll_effect(*old(self), *final(self), variance, old(self).normalized(*a), old(self).normalized(*b)),
+//@END
+
+/// C29 at a bare lifetime position, stated over the NORMALIZED lifetimes `a`, `b` (known values substituted):
+/// two unknowns are unified; an unknown against a known lifetime goes through `unify_lifetime_var` with the
+/// variance as given when the unknown is on the left and INVERTED (arguments swapped) when it is on the right,
+/// in the universe of the placeholder (the root for 'static / erased / error); two known lifetimes record
+/// exactly the variance-dictated outlives requirements (which may be left out when they are the same lifetime); an error lifetime
+/// relates to anything with no requirement.
+pub open spec fn rll_effect<'t, I: Interner>(pre: Unifier<'t, I>, post: Unifier<'t, I>, variance: Variance, a: Lifetime<I>, b: Lifetime<I>) -> bool {
+    let same = post.tview() == pre.tview() && post.goal_seq() == pre.goal_seq();
+    match (lifetime_data(a), lifetime_data(b)) {
+        (LifetimeData::InferenceVar(va), LifetimeData::InferenceVar(vb)) =>
+            post.goal_seq() == pre.goal_seq() && post.tview().bound == pre.tview().bound
+            && post.tview().unified == pre.tview().unified.push((ena_of::<I>(va), ena_of::<I>(vb))),
+        (LifetimeData::InferenceVar(va), LifetimeData::Placeholder(p)) => lifetime_var_effect(pre, post, variance, va, b, p.ui),
+        (LifetimeData::Placeholder(p), LifetimeData::InferenceVar(vb)) => lifetime_var_effect(pre, post, variance.spec_invert(), vb, a, p.ui),
+        (LifetimeData::InferenceVar(va), _) => lifetime_var_effect(pre, post, variance, va, b, UniverseIndex { counter: 0 }),
+        (_, LifetimeData::InferenceVar(vb)) => lifetime_var_effect(pre, post, variance.spec_invert(), vb, a, UniverseIndex { counter: 0 }),
+        (LifetimeData::Error, _) => same,
+        (_, LifetimeData::Error) => same,
+        (LifetimeData::Static, LifetimeData::Static) => same,
+        (LifetimeData::Erased, LifetimeData::Erased) => same,
+        // `'x: 'x` holds trivially: for one and the same lifetime, recording nothing and recording the reflexive
+        // requirements are equivalent (the property speaks of requirements up to equivalence)
+        _ => (a == b && same)
+            || (post.tview() == pre.tview() && post.goal_seq() == pre.goal_seq() + required(pre.env(), variance, a, b)),
+    }
+}
 
 /// the contract of `unify_lifetime_var`, as a relation between the unifier before and after
 pub open spec fn lifetime_var_effect<'t, I: Interner>(pre: Unifier<'t, I>, post: Unifier<'t, I>, variance: Variance, var: InferenceVar, value: Lifetime<I>, value_ui: UniverseIndex) -> bool {
